@@ -430,6 +430,41 @@ func checkDesc(it descItem) (error, bool, []string) {
 		for range eg.Value {
 			classes = append(classes, "enum-value")
 		}
+		// the generated Go tables of the enum must say what the descriptor says: gogoproto's registered
+		// name->number table (used by its JSON decoder), the String() of the Go enum type of both families
+		// (number->name), and the api family's registered enum type
+		if vm := gogoproto.EnumValueMap(it.Name); vm != nil {
+			want := map[string]int32{}
+			for _, v := range eg.Value {
+				want[v.GetName()] = v.GetNumber()
+			}
+			if !reflect.DeepEqual(vm, want) {
+				return pbt.Failf("C20/enum-table", "%s: gogoproto's registered value table %v, descriptor %v", it.Name, vm, want), false, classes
+			}
+			classes = append(classes, "enum-table:gogo-values")
+		}
+		if rt := gogoEnumGoTypes()[it.Name]; rt != nil {
+			for _, v := range eg.Value {
+				x := reflect.New(rt).Elem()
+				x.SetInt(int64(v.GetNumber()))
+				if st, ok := x.Interface().(fmt.Stringer); ok && st.String() != v.GetName() {
+					return pbt.Failf("C20/enum-table", "%s: gogoproto Go type %s prints %d as %q, descriptor name %q", it.Name, rt, v.GetNumber(), st.String(), v.GetName()), false, classes
+				}
+			}
+			classes = append(classes, "enum-table:gogo-names")
+		}
+		if et, err := protoregistry.GlobalTypes.FindEnumByName(protoreflect.FullName(it.Name)); err == nil {
+			for _, v := range ea.Value {
+				ev := et.Descriptor().Values().ByName(protoreflect.Name(v.GetName()))
+				if ev == nil || int32(ev.Number()) != v.GetNumber() {
+					return pbt.Failf("C20/enum-table", "%s: api enum type has %v for %s, descriptor %d", it.Name, ev, v.GetName(), v.GetNumber()), false, classes
+				}
+				if st, ok := et.New(protoreflect.EnumNumber(v.GetNumber())).(fmt.Stringer); ok && st.String() != v.GetName() {
+					return pbt.Failf("C20/enum-table", "%s: api Go type prints %d as %q, descriptor name %q", it.Name, v.GetNumber(), st.String(), v.GetName()), false, classes
+				}
+			}
+			classes = append(classes, "enum-table:api")
+		}
 		return nil, true, classes
 	case "service":
 		sg, sa := fg.services[it.Name], fa.services[it.Name]
@@ -539,6 +574,44 @@ func checkGoType(it descItem, classes []string) (error, bool, []string) {
 		}
 	}
 	return nil, nontrivial, classes
+}
+
+var (
+	enumTypesOnce sync.Once
+	enumTypes     map[string]reflect.Type
+	enumTagRe     = regexp.MustCompile(`enum=([A-Za-z0-9_.]+)`)
+)
+
+// gogoEnumGoTypes finds the Go type of every enum of the gogoproto family through the struct tags of the message
+// fields that use it (gogoproto registers only the value table of an enum, not its Go type).
+func gogoEnumGoTypes() map[string]reflect.Type {
+	enumTypesOnce.Do(func() {
+		enumTypes = map[string]reflect.Type{}
+		u := loadUniverse()
+		for _, fd := range u.gogo {
+			for name := range flatten(fd).messages {
+				rt := gogoproto.MessageType(name)
+				if rt == nil || rt.Kind() != reflect.Ptr || rt.Elem().Kind() != reflect.Struct {
+					continue
+				}
+				st := rt.Elem()
+				for i := 0; i < st.NumField(); i++ {
+					m := enumTagRe.FindStringSubmatch(st.Field(i).Tag.Get("protobuf"))
+					if m == nil {
+						continue
+					}
+					ft := st.Field(i).Type
+					for ft.Kind() == reflect.Slice || ft.Kind() == reflect.Ptr {
+						ft = ft.Elem()
+					}
+					if ft.Kind() == reflect.Int32 {
+						enumTypes[m[1]] = ft
+					}
+				}
+			}
+		}
+	})
+	return enumTypes
 }
 
 func optEmpty(m proto.Message) bool {
